@@ -1170,7 +1170,7 @@ def concrete_c08(c):
     split_bn = splits_blank_nodes(c["triples"])
     for i in range(1, len(c["reals"])):
         ch = c["reals"][i]["run"]["real_delivery"]
-        if split_bn and ch.endswith(("/files", "/zip", "/zips")) and ch.startswith(RDFLIB_REPARSED + ("json-ld/",)):
+        if split_bn and ch.endswith(("/files", "/zip", "/zips", "/zipdir")) and ch.startswith(RDFLIB_REPARSED + ("json-ld/",)):
             continue          # blank-node labels are document-scoped for rdflib: the pieces are not the same graph
         sub = dict(c, reals=[c["reals"][0], c["reals"][i]], schemas=[c["schemas"][0], c["schemas"][i]])
         ps = _run_symbolic_judge_concretely(judge_c09, sub)
